@@ -13,7 +13,7 @@ import itertools as it
 import logging
 from dataclasses import dataclass, field
 from queue import Empty, SimpleQueue
-from typing import TYPE_CHECKING, Self, cast
+from typing import TYPE_CHECKING, Any, Self, cast
 
 import numpy as np
 import pandas as pd
@@ -652,6 +652,29 @@ class Model:
                 raise NameError(msg)
             taken.add(name)
 
+    @staticmethod
+    def _check_known_names(
+        *,
+        names: Iterable[str],
+        container: Mapping[str, Any],
+        kind: str,
+    ) -> None:
+        """Raise unless every name is a key of the container and is given once.
+
+        Used by the methods taking several names, so that a bad name is
+        reported before the first element has been applied.
+
+        Raises:
+            KeyError: If a name is unknown or listed twice.
+
+        """
+        seen: set[str] = set()
+        for name in names:
+            if name not in container or name in seen:
+                msg = f"'{name}' not found in {kind}"
+                raise KeyError(msg)
+            seen.add(name)
+
     def _remove_id(self, *, name: str) -> None:
         """Remove an ID from the internal dictionary.
 
@@ -775,6 +798,7 @@ class Model:
             Self: The instance of the model with the added parameters.
 
         """
+        self._check_new_ids(names=parameters, ctx="parameter")
         for k, v in parameters.items():
             if isinstance(v, Parameter):
                 self.add_parameter(k, v.value, unit=v.unit, source=v.source)
@@ -817,6 +841,9 @@ class Model:
             Self: The instance of the model with the specified parameters removed.
 
         """
+        self._check_known_names(
+            names=names, container=self._parameters, kind="parameters"
+        )
         for name in names:
             self.remove_parameter(name)
         return self
@@ -880,6 +907,9 @@ class Model:
             Self: The instance of the model with updated parameters.
 
         """
+        self._check_known_names(
+            names=parameters, container=self._parameters, kind="parameters"
+        )
         for k, v in parameters.items():
             if isinstance(v, Parameter):
                 self.update_parameter(k, value=v.value, unit=v.unit, source=v.source)
@@ -901,17 +931,17 @@ class Model:
             Self: The instance of the class with the updated parameter.
 
         """
+        return self.update_parameter(name, self._scaled_value(name, factor))
+
+    def _scaled_value(self, name: str, factor: float) -> float:
+        """Current value of a parameter times the factor (the model is not changed)."""
         old = self._parameters[name].value
         if isinstance(old, InitialAssignment):
             LOGGER.warning("Overwriting initial assignment %s", name)
             if (cache := self._cache) is None:
                 cache = self._create_cache()
-
-            return self.update_parameter(
-                name, cache.all_parameter_values[name] * factor
-            )
-
-        return self.update_parameter(name, old * factor)
+            old = cache.all_parameter_values[name]
+        return old * factor
 
     def scale_parameters(self, parameters: dict[str, float]) -> Self:
         """Scales the parameters of the model.
@@ -927,9 +957,11 @@ class Model:
             Self: The instance of the model with scaled parameters.
 
         """
-        for k, v in parameters.items():
-            self.scale_parameter(k, v)
-        return self
+        # every new value is computed from the model as it is, so that an unknown
+        # name is reported before the first parameter has been changed
+        return self.update_parameters(
+            {k: self._scaled_value(k, v) for k, v in parameters.items()}
+        )
 
     @_invalidate_cache
     def make_parameter_dynamic(
@@ -1128,6 +1160,7 @@ class Model:
             Self: The instance of the model with the added variables.
 
         """
+        self._check_new_ids(names=variables, ctx="variable")
         for name, v in variables.items():
             if isinstance(v, Variable):
                 self.add_variable(
@@ -1192,6 +1225,10 @@ class Model:
             Self: The instance of the model with the specified variables removed.
 
         """
+        variables = list(variables)
+        self._check_known_names(
+            names=variables, container=self._variables, kind="variables"
+        )
         for variable in variables:
             self.remove_variable(
                 name=variable, remove_stoichiometries=remove_stoichiometries
@@ -1250,6 +1287,9 @@ class Model:
             Self: The instance of the model with updated variables.
 
         """
+        self._check_known_names(
+            names=variables, container=self._variables, kind="variables"
+        )
         for k, v in variables.items():
             if isinstance(v, Variable):
                 self.update_variable(
